@@ -6,6 +6,7 @@ package main
 
 import (
 	"fmt"
+	"go/token"
 	"os"
 	"sync"
 )
@@ -29,6 +30,9 @@ type thread struct {
 	idle   bool // blocked in vxWaitIdle
 	held   map[*value]int
 	sch    *schedState
+	vc     vclock
+	fr     *frame
+	pos    token.Pos
 }
 
 type schedState struct {
@@ -62,6 +66,11 @@ func (i *interpreter) endPath() {
 // spawn starts a new interpreted goroutine running body.
 func (i *interpreter) spawn(name string, body func()) *thread {
 	t := i.newThread(name)
+	if i.race != nil && i.race.on && i.sch.cur != nil {
+		t.vc = i.sch.cur.vc.copy()
+		i.tick(i.sch.cur)
+	}
+	t.vc.set(t.id, t.vc.get(t.id)+1)
 	sch := i.sch
 	sch.wg.Add(1)
 	go func() {
